@@ -1,6 +1,7 @@
 """C12 — Savefiles restore the saved state and contain only differences from defaults."""
 import os
 import random
+import re
 import sys
 
 sys.path.insert(0, os.path.dirname(os.path.dirname(os.path.abspath(__file__))))
@@ -154,10 +155,12 @@ TRUSTED = ["hand-written abstract model RtoscModel/Save/{App,Deps,Load,Save}.lea
            "model of rtosc_arg_val_itr, into save_to_file / load_from_file on file text; the two header sscanf calls are "
            "transcribed by hand there (the driver runs this transcription on every damaged header of the `tok` cases). The "
            "composition of the message stages is NOT part of "
-           "the compiled driver (drv_save compares abstract lines); it is compared, outside the "
-           "check (tools/props/c12_textcheck.py, lean/Driver/SaveTextCheck.lean), with the text the compiled library writes: "
-           "600 generated states of the first fourteen applications, every file byte-identical, and the Lean load_from_file "
-           "restored 597 of them - the other three hold +infinity (C12-K9)",
+           "the compiled driver (drv_save compares abstract lines); it is compared on EVERY run of the check (c12.text_level: "
+           "`lake env lean --run Driver/SaveTextCheck.lean` on the first 400 (quick) / 4000 (thorough) `sl` cases of the run) "
+           "with the compiled library: the text save_to_file returns has to be App.saveText byte for byte, and App.loadText of "
+           "that text has to have the verdict of the compiled load_from_file (same return value and fields, or both reject - "
+           "the C12-K9 / K10 files); a disagreement is a correspondence disagreement (` TEXT-MISMATCH` on the model's line), "
+           "counts under input_distribution.text_level of the evidence",
            "message encoding (C01), dispatch (C04), callbacks (C14), argument comparison (C16) enter only through the "
            "correspondence"]
 LEVEL_TEXT = ("Lean theorems over the abstract application model, for every application satisfying App.WF (any acyclic, "
@@ -631,12 +634,14 @@ def hypotheses_report(apps):
 
 
 _STATS = None
+_TIER = None
 
 
 def generate(rng, tier, stats):
     apps = SA.pool()
-    global _STATS
+    global _STATS, _TIER
     if _STATS is None:
+        _TIER = tier
         _STATS = stats            # (the runner's search calls generate() a second time: the first dict is the evidence)
     stats["theorem_hypotheses_per_app"] = hypotheses_report(apps)
     n = 4000 if tier == "quick" else 150000
@@ -860,6 +865,8 @@ def known(op, impl_out, model_out, defs):
     if kid is None:
         return None
     if model_out is not None:
+        if " TEXT-MISMATCH " in model_out:
+            return None
         dm = parse_out(model_out)
         if dm.get("R") != "neg" or dm.get("H") != d.get("H"):
             return None
@@ -878,6 +885,89 @@ def neighbours(op, rng):
 
 
 # ------------------------------------------------------------------------------------
+# text level: the Lean model of the FILE TEXT (Save/Text.lean, the object of Props/C12Text) against the compiled library
+# ------------------------------------------------------------------------------------
+TEXT_CASES = {"quick": 400, "thorough": 4000}
+
+
+def text_level(run_h, exe, ops, impl_out, model_out, workdir, tag):
+    """The theorems of Props/C12Text are about RtoscModel/Save/Text.lean: save_to_file / load_from_file on file TEXT,
+    composed from C10's models of the printer, checker and scanner.  The compiled driver does not contain that composition
+    (it compares abstract lines), so it is tied to the code here: for the first TEXT_CASES[tier] `sl` cases of the run the
+    harness prints the text the compiled save_to_file returns (mode `txt`) and `lake env lean --run
+    Driver/SaveTextCheck.lean` evaluates App.saveText / App.loadText on the same case.  Demanded: the two texts are equal
+    byte for byte, and the model's load_from_file has the verdict of the compiled one on that text (same return value and
+    same fields afterwards, or both reject - which is what the defect-mirroring model does on C12-K9 / K10 files).
+    Cases whose saved state is not the one the model's own run of the history reaches, and cases on which the model's
+    evaluation ends undecided (fuel), are counted and skipped.  A disagreement is appended to the MODEL's output line
+    (` TEXT-MISMATCH …`), which makes it a correspondence disagreement of the ordinary kind."""
+    import subprocess
+    import vlib
+    tier = _TIER or "quick"
+    idx = [i for i, op in enumerate(ops) if op.startswith("sl ") and not impl_out[i].startswith("crash")
+           and impl_out[i] != "bad-op"][:TEXT_CASES[tier]]
+    st = {"cases": len(idx), "texts_identical": 0, "load_verdicts_equal": 0, "both_reject": 0,
+          "history_state_differs": 0, "model_undecided": 0, "mismatches": 0}
+    if not idx:
+        return model_out
+    tops = ["txt " + ops[i].split(" ", 1)[1] for i in idx]
+    himpl = run_h(exe, tops, workdir, tag + "-txt")
+    cm = open(os.path.join(vlib.REPO, "CMakeLists.txt")).read()
+    try:
+        ver = ".".join(re.search(r"set\(VERSION_%s (\d+)\)" % k, cm).group(1) for k in ("MAJOR", "MINOR", "PATCH"))
+    except AttributeError:
+        ver = "0.0.0"
+    opf = os.path.join(workdir, tag + "-txt-ops.txt")
+    with open(opf, "w") as f:
+        f.write("\n".join(tops) + "\n")
+    p = subprocess.run(["lake", "env", "lean", "--run", "Driver/SaveTextCheck.lean", opf, ver],
+                       cwd=os.path.join(vlib.VERIF, "lean"), stdout=subprocess.PIPE, stderr=subprocess.PIPE, text=True)
+    out = list(model_out)
+    if p.returncode != 0:
+        out[idx[0]] += " TEXT-MISMATCH text model does not evaluate: " + p.stderr.strip()[-200:].replace("\n", " ")
+        st["mismatches"] += 1
+        if _STATS is not None and tag == "main":
+            _STATS["text_level"] = st
+        return out
+    tmodel = p.stdout.split("\n")
+    for k, i in enumerate(idx):
+        a, b = himpl[k], tmodel[k] if k < len(tmodel) else ""
+        d = parse_out(impl_out[i])
+        parts = b.split(" | ")
+        why = None
+        if len(parts) != 3:
+            if b.startswith("ERR "):
+                st["model_undecided"] += 1
+                continue
+            why = "text model output unreadable: " + b[:80]
+        elif parts[2] != "O " + str(d.get("O")):
+            st["history_state_differs"] += 1
+            continue
+        elif parts[0] != a:
+            why = "file text differs: impl %s model %s" % (a[:4000], parts[0][:4000])
+        else:
+            st["texts_identical"] += 1
+            load = parts[1]
+            if load.startswith("E ") or load == "R undefined":
+                st["model_undecided"] += 1
+            elif load == "R neg":
+                if d.get("R") == "neg":
+                    st["both_reject"] += 1
+                else:
+                    why = "load_from_file: model rejects the text, impl R %s" % d.get("R")
+            elif load == "R %s F %s" % (d.get("R"), d.get("F")):
+                st["load_verdicts_equal"] += 1
+            else:
+                why = "load_from_file differs: model `%s` impl `R %s F %s`" % (load[:300], d.get("R"), str(d.get("F"))[:300])
+        if why:
+            st["mismatches"] += 1
+            out[i] += " TEXT-MISMATCH " + why.replace("\n", " ")
+    if _STATS is not None and tag == "main":
+        _STATS["text_level"] = st
+    return out
+
+
+# ------------------------------------------------------------------------------------
 # runner hook: the model's save / load runs on the state the implementation saved
 # ------------------------------------------------------------------------------------
 def main(argv):
@@ -893,7 +983,7 @@ def main(argv):
 
     def run_harness_rec(exe, ops, workdir, tag, extra_args=()):
         out = orig_h(exe, ops, workdir, tag, extra_args)
-        last["ops"], last["out"] = list(ops), out
+        last["ops"], last["out"], last["exe"] = list(ops), out, exe
         return out
 
     def run_driver_dump(engine, ops, workdir, tag, nproc=1):
@@ -915,6 +1005,8 @@ def main(argv):
             out.append(r)
         if _STATS is not None and tag == "main":
             _STATS["history_state_differs_from_model"] = n
+        if tag in ("main", "replay") and last.get("ops") == list(ops):
+            out = text_level(orig_h, last["exe"], list(ops), last["out"], out, workdir, tag)
         return out
 
     vlib.run_harness, vlib.run_driver = run_harness_rec, run_driver_dump
